@@ -498,6 +498,21 @@ def trees(depth, k, leaves):
     return out
 
 
+_tree_cache = {}
+
+
+def TREES23():
+    if "23" not in _tree_cache:
+        _tree_cache["23"] = [v for v in trees(2, 3, LEAVES3) if v[0] == "l"]
+    return _tree_cache["23"]
+
+
+def TREES32():
+    if "32" not in _tree_cache:
+        _tree_cache["32"] = [v for v in trees(3, 2, LEAVES3) if v[0] == "l"]
+    return _tree_cache["32"]
+
+
 def rand_value(rng, depth, pool, inner=True):
     if depth == 0 or rng.random() < 0.35:
         return rng.choice(pool)
@@ -544,17 +559,16 @@ def universe(tier, rng):
         yield "list1", "array", L(a)
         yield "list2", "array", L(I(7), L(a, St("z")))
     # nestings: all trees of depth <= 2 with lists of <= 3 elements over {1, 2.5, "a"}; depth 3 with <= 2 elements
-    for v in trees(2, 3, LEAVES3):
+    for v in trees(2, 2, LEAVES3):
         if v[0] == "l":
             yield "tree2", "array", v
-    t3 = [v for v in trees(3, 2, LEAVES3) if v[0] == "l"]
-    if tier == "quick":
-        pick = rng.sample(range(len(t3)), 2500)
-        for i in sorted(pick):
-            yield "tree3", "array", t3[i]
-    else:
-        for v in t3:
-            yield "tree3", "array", v
+    for name, ts, nq in (("tree2w", TREES23(), 2000), ("tree3", TREES32(), 2500)):
+        if tier == "quick":
+            for i in sorted(rng.sample(range(len(ts)), nq)):
+                yield name, "array", ts[i]
+        else:
+            for v in ts:
+                yield name, "array", v
     # seeded random nestings over the full atom set (depth <= 3, some deeper)
     pool = at + [St(rand_string(rng)) for _ in range(200)]
     n_rand = 800 if tier == "quick" else 12000
@@ -605,6 +619,17 @@ class Impl:
         return self.k(".rs(t)")
 
     def match(self, a, b):
+        if isinstance(a, dict) or isinstance(b, dict):
+            # klongpy's ~ on two dictionaries is Python dict equality and raises on list values (not C11's subject):
+            # dictionaries are compared entry by entry, keys as Python objects, values with ~
+            if not (isinstance(a, dict) and isinstance(b, dict)) or len(a) != len(b):
+                return False
+            for (k1, x1), (k2, x2) in zip(a.items(), b.items()):
+                if type(k1) is not type(k2) and not (isinstance(k1, (int, float)) and isinstance(k2, (int, float))):
+                    return False
+                if not (k1 == k2 and self.match(x1, x2)):
+                    return False
+            return True
         self.k["a"] = a
         self.k["b"] = b
         r = self.k("a~b")
@@ -998,9 +1023,9 @@ def run(tier, replay=None):
     for b in (check_classes(chk, rng), check_float_text(chk, rng), check_ints(chk, rng)):
         if b:
             bad_corrs.append(b)
-    asar = [v for v in trees(2, 3, LEAVES3) if v[0] == "l"]
-    t3 = [v for v in trees(3, 2, [I(1), R(2.5), St("a")]) if v[0] == "l"]
-    asar += t3 if tier == "thorough" else [t3[i] for i in sorted(rng.sample(range(len(t3)), 3000))]
+    asar = [v for v in trees(2, 2, LEAVES3) if v[0] == "l"]
+    for ts in (TREES23(), TREES32()):
+        asar += ts if tier == "thorough" else [ts[i] for i in sorted(rng.sample(range(len(ts)), 2500))]
     asar += [L(*[rand_value(rng, 4, [I(1), I(2 ** 53 + 1), R(0.5), St("s"), Ch("c"), Sy("y")]) for _ in range(rng.randint(0, 3))]) for _ in range(500)]
     b = check_asarray(chk, impl, asar)
     if b:
